@@ -7,6 +7,8 @@ props="$@"; [ -z "$props" ] && props="C01 C02 C03 C04 C05 C07 C08 C09 C10 C11 C1
 d=$(mktemp -d /tmp/verif_bn_XXXX); cp -r /repo/baize $d/
 if ! patch -s -p1 -d $d -i "$patch"; then echo "patch failed"; rm -rf $d; exit 2; fi
 for p in $props; do
-  VERIF_REPO=$d ./check $p --tier quick 2>&1 | grep -E "tier=|VIOLATION|UNDECIDED|CHECKER-FAULT" | cut -c1-330 | head -6
+  VERIF_REPO=$d ./check $p --tier quick > $d/out.txt 2>&1
+  grep -E "VIOLATION|UNDECIDED|CHECKER-FAULT" $d/out.txt | cut -c1-330 | head -5
+  grep -E "tier=" $d/out.txt | cut -c1-200
 done
 rm -rf $d
